@@ -1189,6 +1189,10 @@ def pattern_shl32(context, tree, c0, c1):
     return d
 
 
+@thumb_isa.pattern("reg", "MULI8(reg, reg)", size=5)
+@thumb_isa.pattern("reg", "MULU8(reg, reg)", size=5)
+@thumb_isa.pattern("reg", "MULI16(reg, reg)", size=5)
+@thumb_isa.pattern("reg", "MULU16(reg, reg)", size=5)
 @thumb_isa.pattern("reg", "MULI32(reg, reg)", size=5)
 @thumb_isa.pattern("reg", "MULU32(reg, reg)", size=5)
 def pattern_mul32(context, tree, c0, c1):
